@@ -589,5 +589,315 @@ theorem sortByDecompositionBase_perm (env : Env) (asc pseudo : Bool) (names : Li
   · rw [flatten_namesBlocks]; exact hfin
   · rw [flatten_namesBlocks]; exact (reverse_perm _).flatten.trans hfin
 
+/-! ### weighted suffix, ligature, general type, whitespace, notdef -/
+
+theorem sortByWeightedSuffix_perm (env : Env) (asc pseudo : Bool) (names : List Name) :
+    (sortByWeightedSuffix env asc pseudo names).flatten.Perm names := by
+  unfold sortByWeightedSuffix
+  have hpart := filter_append_perm isPlain names
+  simp only
+  split
+  · rename_i he
+    simp only [Blk.flatten]
+    have : names.filter (fun n => !isPlain n) = [] := by simpa using he
+    rw [this, append_nil] at hpart
+    exact hpart
+  · generalize suffixToMagnet (names.filter fun n => !isPlain n) = m
+    have hv := values_buckets (magnetOf m) [] (names.filter fun n => !isPlain n)
+    simp at hv
+    have hg : ((sortBy (weightLt env pseudo) (buckets (magnetOf m) [] (names.filter fun n => !isPlain n))).map
+        Prod.snd).flatten.Perm (names.filter fun n => !isPlain n) :=
+      (((sortBy_perm _ _).map Prod.snd).flatten).trans (by simpa using hv)
+    split
+    · rw [flatten_namesBlocks, flatten_cons]
+      exact (Perm.append_left _ hg).trans hpart
+    · rw [flatten_namesBlocks]
+      refine (reverse_perm _).flatten.trans ?_
+      rw [flatten_cons]
+      exact (Perm.append_left _ ((flatten_map_reverse_perm _).trans hg)).trans hpart
+
+theorem sortByLigature_perm (env : Env) (T : Tables) (asc pseudo : Bool) (names : List Name) :
+    (sortByLigature env T asc pseudo names).flatten.Perm names := by
+  unfold sortByLigature
+  have h := filter_append_perm (isLigature env T pseudo) names
+  simp only
+  split
+  · simp only [flatten_namesBlocks, flatten_cons, flatten_nil, append_nil]
+    exact perm_append_comm.trans h
+  · simp only [flatten_namesBlocks, flatten_cons, flatten_nil, append_nil]
+    exact (Perm.append (reverse_perm _) (reverse_perm _)).trans h
+
+theorem sortByGeneralType_perm (env : Env) (asc : Bool) (names : List Name) :
+    (sortByGeneralType env asc names).flatten.Perm names := by
+  unfold sortByGeneralType
+  have h := flatMap_filter_perm (generalType env) names [.uni, .noUni, .suffix] (by decide)
+  have hall : names.filter (fun a => decide (generalType env a ∈ [GenType.uni, .noUni, .suffix])) = names := by
+    apply filter_eq_self_of_all
+    intro a _
+    cases generalType env a <;> simp
+  rw [hall] at h
+  simp only [flatMap_cons, flatMap_nil, append_nil] at h
+  simp only
+  split
+  · simp only [flatten_namesBlocks, flatten_cons, flatten_nil, append_nil]
+    exact h
+  · simp only [flatten_namesBlocks, flatten_cons, flatten_nil, append_nil]
+    exact (Perm.append (reverse_perm _) (Perm.append (reverse_perm _) (reverse_perm _))).trans h
+
+theorem sortByWhitespace_perm (env : Env) (asc pseudo : Bool) (names : List Name) :
+    (sortByWhitespace env asc pseudo names).flatten.Perm names := by
+  unfold sortByWhitespace
+  have h := filter_append_perm (fun n => env.categoryFor n pseudo == "Zs") names
+  simp only
+  split
+  · simp only [flatten_namesBlocks, flatten_cons, flatten_nil, append_nil]
+    exact h
+  · simp only [flatten_namesBlocks, flatten_cons, flatten_nil, append_nil]
+    exact perm_append_comm.trans ((Perm.append (reverse_perm _) (reverse_perm _)).trans h)
+
+theorem sortByNotdef_perm (names : List Name) : (sortByNotdef names).flatten.Perm names := by
+  unfold sortByNotdef
+  simp only [Blk.flatten]
+  exact perm_append_comm.trans (filter_append_perm isNotdef names)
+
+/-! ### container partners (repaired loop) -/
+
+theorem partnersLoop_perm (env : Env) (pseudo : Bool) (fuel : Nat) (rest order : List Name)
+    (hf : rest.length ≤ fuel) : (partnersLoop env pseudo fuel rest order).Perm (order ++ rest) := by
+  induction fuel generalizing rest order with
+  | zero =>
+    have : rest = [] := by cases rest <;> simp_all
+    subst this; simp [partnersLoop]
+  | succ fuel ih =>
+    cases rest with
+    | nil => simp [partnersLoop]
+    | cons g rest =>
+      simp only [length_cons, Nat.add_le_add_iff_right] at hf
+      unfold partnersLoop
+      cases hc : env.closeRelativeFor g pseudo with
+      | none =>
+        simp only
+        refine (ih rest (order ++ [g]) hf).trans ?_
+        simp
+      | some c =>
+        simp only
+        split
+        · rename_i hin
+          have hmem : c ∈ rest := by simpa using hin
+          have hl : (rest.erase c).length ≤ fuel := by
+            rw [length_erase_of_mem hmem]; omega
+          refine (ih (rest.erase c) (order ++ [g] ++ [c]) hl).trans ?_
+          simp only [append_assoc, singleton_append]
+          exact Perm.append_left _ (Perm.cons g (perm_cons_erase hmem).symm)
+        · refine (ih rest (order ++ [g]) hf).trans ?_
+          simp
+
+theorem sortByContainerPartners_perm (env : Env) (asc pseudo : Bool) (names : List Name) :
+    (sortByContainerPartners env asc pseudo names).flatten.Perm names := by
+  unfold sortByContainerPartners
+  have h := partnersLoop_perm env pseudo names.length names [] (Nat.le_refl _)
+  simp only [nil_append] at h
+  simp only [Blk.flatten]
+  split
+  · exact h
+  · exact (reverse_perm _).trans h
+
+/-! ### manual groups -/
+
+/-- removing a sub-multiset element by element and putting it back is a permutation; in particular every
+`list.remove` of the code finds its element -/
+theorem foldl_erase_append_perm (t l : List Name) (h : ∀ x, t.count x ≤ l.count x) :
+    (t.foldl List.erase l ++ t).Perm l := by
+  induction t generalizing l with
+  | nil => simp
+  | cons a t ih =>
+    have ha : a ∈ l := by
+      have := h a
+      simp only [count_cons_self] at this
+      exact count_pos_iff.mp (by omega)
+    have h' : ∀ x, t.count x ≤ (l.erase a).count x := by
+      intro x
+      have := h x
+      rw [count_erase]
+      rw [count_cons] at this
+      by_cases hx : a = x
+      · subst hx; simp at this ⊢; omega
+      · have hx' : ¬ x = a := fun e => hx e.symm
+        simp [hx, hx'] at *
+        omega
+    simp only [foldl_cons]
+    refine Perm.trans ?_ (perm_cons_erase ha).symm
+    refine perm_middle.trans (Perm.cons a (ih _ h'))
+
+theorem moveBehindFirst_perm (names matched : List Name) (h : ∀ x, matched.count x ≤ names.count x) :
+    (moveBehindFirst names matched).Perm names := by
+  unfold moveBehindFirst
+  split
+  · rename_i m0 m1 ms
+    have ht : ∀ x, (m1 :: ms).count x ≤ names.count x := by
+      intro x
+      have := h x
+      rw [count_cons] at this
+      omega
+    have h1 := foldl_erase_append_perm (m1 :: ms) names ht
+    refine Perm.trans ?_ h1
+    generalize (m1 :: ms).foldl List.erase names = removed
+    generalize removed.idxOf m0 + 1 = k
+    rw [append_assoc]
+    refine (Perm.append_left _ perm_append_comm).trans ?_
+    rw [← append_assoc, take_append_drop]
+  · exact Perm.refl _
+
+/-- after `matched[1:]` has been removed, `matched[0]` is still in the list: `glyphNames.index` finds it -/
+theorem moveBehindFirst_index_found (names : List Name) (m0 : Name) (tail : List Name)
+    (h : ∀ x, (m0 :: tail).count x ≤ names.count x) : m0 ∈ tail.foldl List.erase names := by
+  have ht : ∀ x, tail.count x ≤ names.count x := by
+    intro x; have := h x; rw [count_cons] at this; omega
+  have hp := foldl_erase_append_perm tail names ht
+  have hc := hp.count_eq m0
+  rw [count_append] at hc
+  have := h m0
+  simp only [count_cons_self] at this
+  exact count_pos_iff.mp (by omega)
+
+theorem count_le_of_perm_of_le {l l' m : List Name} (hp : l.Perm l') (h : ∀ x, m.count x ≤ l'.count x) :
+    ∀ x, m.count x ≤ l.count x := fun x => by rw [hp.count_eq]; exact h x
+
+theorem foldl_moveBehindFirst_perm (suffixes : List (Option String × List Name)) (names names0 : List Name)
+    (hp : names.Perm names0) (h : ∀ p ∈ suffixes, ∀ x, p.2.count x ≤ names0.count x) :
+    (suffixes.foldl (fun ns p => moveBehindFirst ns p.2) names).Perm names0 := by
+  induction suffixes generalizing names with
+  | nil => exact hp
+  | cons p r ih =>
+    simp only [foldl_cons]
+    apply ih _ _ (fun q hq => h q (mem_cons_of_mem _ hq))
+    exact (moveBehindFirst_perm names p.2 (count_le_of_perm_of_le hp (h p mem_cons_self))).trans hp
+
+/-- the names matched by one manual group are a sub-multiset of the list -/
+theorem matched_count_le (env : Env) (pseudo : Bool) (names0 : List Name) (pairGroup : List Nat)
+    (hnd : pairGroup.Nodup) (x : Name) :
+    (pairGroup.flatMap (fun u => bucketOf (buckets (valueFor env pseudo) [] names0) (some u))).count x ≤
+      names0.count x := by
+  have h1 : (pairGroup.flatMap (fun u => bucketOf (buckets (valueFor env pseudo) [] names0) (some u))) =
+      (pairGroup.map some).flatMap (fun k => names0.filter (fun a => decide (valueFor env pseudo a = k))) := by
+    rw [flatMap_map]
+    apply flatMap_congr'
+    intro u _
+    rw [bucketOf_buckets]
+    rfl
+  rw [h1]
+  have h2 := flatMap_filter_perm (valueFor env pseudo) names0 (pairGroup.map some) ((nodup_map_some _).mpr hnd)
+  rw [h2.count_eq]
+  exact filter_sublist.count_le x
+
+theorem manualGroup_perm (env : Env) (pseudo : Bool) (names0 names : List Name) (pairGroup : List Nat)
+    (hp : names.Perm names0) (hnd : pairGroup.Nodup) :
+    (manualGroup (buckets (valueFor env pseudo) [] names0) names pairGroup).Perm names0 := by
+  unfold manualGroup
+  simp only
+  generalize hm : (pairGroup.flatMap fun u => bucketOf (buckets (valueFor env pseudo) [] names0) (some u)) = matched
+  have hle : ∀ x, matched.count x ≤ names0.count x := by
+    intro x; rw [← hm]; exact matched_count_le env pseudo names0 pairGroup hnd x
+  apply foldl_moveBehindFirst_perm _ _ _ hp
+  intro p hpm x
+  have hkn : (AL.keys (buckets manualSuffixKey [] matched)).Nodup :=
+    nodup_keys_buckets _ _ _ (by simp [AL.keys])
+  have hget := AL.get?_of_mem_nodup hkn (show (p.1, p.2) ∈ _ from hpm)
+  have hb := bucketOf_buckets manualSuffixKey [] matched p.1
+  rw [get?_eq_some_bucketOf hget] at hb
+  have : bucketOf ([] : List (Option String × List Name)) p.1 = [] := rfl
+  rw [this, nil_append] at hb
+  rw [hb]
+  exact Nat.le_trans (filter_sublist.count_le x) (hle x)
+
+theorem sortByManualGroups_perm (env : Env) (T : Tables) (pseudo : Bool) (names : List Name)
+    (hT : ∀ g ∈ T.manualGroups, g.Nodup) : (sortByManualGroups env T pseudo names).flatten.Perm names := by
+  unfold sortByManualGroups
+  simp only [Blk.flatten]
+  suffices h : ∀ (gs : List (List Nat)) (ns : List Name), (∀ g ∈ gs, g.Nodup) → ns.Perm names →
+      (gs.foldl (manualGroup (buckets (valueFor env pseudo) [] names)) ns).Perm names from
+    h _ _ hT (Perm.refl _)
+  intro gs
+  induction gs with
+  | nil => intro ns _ hp; exact hp
+  | cons g r ih =>
+    intro ns hg hp
+    simp only [foldl_cons]
+    exact ih _ (fun g' hg' => hg g' (mem_cons_of_mem _ hg'))
+      (manualGroup_perm env pseudo names ns g hp (hg g mem_cons_self))
+
+/-! ### dispatch and the canned sort -/
+
+theorem TagsCovered.mono {tagOf : Name → String} {ordered : List String} {names l : List Name}
+    (h : TagsCovered tagOf ordered names) (hl : ∀ n ∈ l, n ∈ names) : TagsCovered tagOf ordered l := by
+  rcases h with h | h
+  · exact Or.inl h
+  · exact Or.inr (fun n hn => h n (hl n hn))
+
+theorem BasicCovered.mono {env : Env} {T : Tables} {t : Basic} {pseudo : Bool} {names l : List Name}
+    (h : BasicCovered env T t pseudo names) (hl : ∀ n ∈ l, n ∈ names) : BasicCovered env T t pseudo l := by
+  cases t <;> first | exact TagsCovered.mono h hl | trivial
+
+theorem basicMethod_perm (env : Env) (T : Tables) (hT : T.WF) (d : Desc Basic) (names : List Name)
+    (hc : BasicCovered env T d.type d.pseudo names) : (basicMethod env T d names).flatten.Perm names := by
+  obtain ⟨hs, hb, hcat, hm⟩ := hT
+  unfold basicMethod
+  cases ht : d.type <;> rw [ht] at hc <;> simp only
+  · exact sortByAlphabet_perm _ _
+  · exact sortByUnicode_perm _ _ _ _
+  · exact sortByUnicodeLookup_perm _ _ _ _ hcat hc
+  · exact sortByUnicodeLookup_perm _ _ _ _ hb hc
+  · exact sortByUnicodeLookup_perm _ _ _ _ hs hc
+  · exact sortBySuffix_perm _
+  · exact sortByDecompositionBase_perm _ _ _ _
+  · exact sortByWeightedSuffix_perm _ _ _ _
+  · exact sortByLigature_perm _ _ _ _ _
+  · exact sortByGeneralType_perm _ _ _
+  · exact sortByWhitespace_perm _ _ _ _
+  · exact sortByContainerPartners_perm _ _ _ _
+  · exact sortByManualGroups_perm _ _ _ _ hm
+  · exact sortByNotdef_perm _
+
+theorem cannedSortDesign_perm (env : Env) (T : Tables) (hT : T.WF) (asc pseudo : Bool) (names : List Name)
+    (hcat : BasicCovered env T .category pseudo names) (hscr : BasicCovered env T .script pseudo names) :
+    (cannedSortDesign env T asc pseudo names).flatten.Perm names := by
+  unfold cannedSortDesign
+  have h1 : (sortWith (basicMethod env T) (cannedFirst pseudo) names).Perm names := by
+    apply sortWith_perm
+    intro d hd l hl
+    apply basicMethod_perm env T hT
+    simp only [cannedFirst, mem_cons, not_mem_nil, or_false] at hd
+    rcases hd with h | h | h | h | h | h | h | h | h <;> subst h <;>
+      first | exact hcat.mono hl | exact hscr.mono hl | trivial
+  have h2 : (sortWith (basicMethod env T) (cannedSecond pseudo)
+      (sortWith (basicMethod env T) (cannedFirst pseudo) names)).Perm
+      (sortWith (basicMethod env T) (cannedFirst pseudo) names) := by
+    apply sortWith_perm
+    intro d hd l _
+    apply basicMethod_perm env T hT
+    simp only [cannedSecond, mem_cons, not_mem_nil, or_false] at hd
+    rcases hd with h | h | h <;> subst h <;> trivial
+  simp only [Blk.flatten]
+  split
+  · exact h2.trans h1
+  · exact (reverse_perm _).trans (h2.trans h1)
+
+theorem Covered.mono {env : Env} {T : Tables} {d : Desc SortType} {names l : List Name}
+    (h : Covered env T d names) (hl : ∀ n ∈ l, n ∈ names) : Covered env T d l := by
+  unfold Covered at h ⊢
+  split
+  · rename_i b hb; rw [hb] at h; exact BasicCovered.mono h hl
+  · rename_i hb; rw [hb] at h; exact ⟨h.1.mono hl, h.2.mono hl⟩
+
+theorem method_perm (env : Env) (T : Tables) (hT : T.WF) (d : Desc SortType) (names : List Name)
+    (hc : Covered env T d names) : (method env T d names).flatten.Perm names := by
+  unfold method
+  unfold Covered at hc
+  split
+  · rename_i b hb; rw [hb] at hc
+    exact basicMethod_perm env T hT ⟨b, d.ascending, d.pseudo⟩ names hc
+  · rename_i hb; rw [hb] at hc
+    exact cannedSortDesign_perm env T hT _ _ names hc.1 hc.2
+
 end NameSort
 end DefconModel
